@@ -332,7 +332,8 @@ where
         // and exp(μ) = E(X) / exp(σ² / 2) = E(X) / sqrt(CV² + 1)
         let a = F::one() + cv * cv; // e
         let mu = F::from(0.5).unwrap() * (mean * mean / a).ln();
-        let sigma = a.ln().sqrt();
+        // ln(1 + cv^2) without forming 1 + cv^2, which absorbs a small cv^2 entirely
+        let sigma = (cv * cv).ln_1p().sqrt();
         let norm = Normal::new(mu, sigma)?;
         Ok(LogNormal { norm })
     }
